@@ -180,10 +180,31 @@ func registerFilesAndTime(ex *Explorer) {
 		sb := fr.i.snapOf(fr, b.v, b.t, modeProto, true)
 		return mkScalar(fr.i.ctx, types.Bool, snapEq(sa, sb))
 	})
-	// clocks: node-local, never part of a result (C01) – a fixed instant
-	zeroTime := func(fr *frame, args []value) value { return zero(namedType(fr, "time", "Time")) }
-	ex.register("time.Now", zeroTime)
-	ex.register("github.com/tendermint/tendermint/types/time.Now", zeroTime)
+	// clocks are node-local (C01): every reading is an arbitrary instant between 2020 and
+	// 2096, not earlier than the previous reading of this path.  A Time without monotonic
+	// part is {wall: nanoseconds (0 here), ext: seconds since year 1, loc: nil = UTC}.
+	clock := func(fr *frame, args []value) value {
+		c := fr.i.ctx
+		if fixed, ok := c.scratch["clock.fixed"].(*Term); ok {
+			// the harness drives the clock (zzverif.ClockStart / SetClock)
+			tm := zero(namedType(fr, "time", "Time")).(structure)
+			tm[1] = mkScalar(c, types.Int64, Add(fixed, IntConst64(62135596800)))
+			return tm
+		}
+		n, _ := c.scratch["clock.n"].(int)
+		c.scratch["clock.n"] = n + 1
+		t := c.nondet(fmt.Sprintf("clock.sec#%d", n), kI64)
+		c.assume(And(Ge(t, IntConst64(1577836800)), Le(t, IntConst64(4000000000))))
+		if prev, ok := c.scratch["clock.prev"].(*Term); ok {
+			c.assume(Ge(t, prev))
+		}
+		c.scratch["clock.prev"] = t
+		tm := zero(namedType(fr, "time", "Time")).(structure)
+		tm[1] = mkScalar(c, types.Int64, Add(t, IntConst64(62135596800)))
+		return tm
+	}
+	ex.register("time.Now", clock)
+	ex.register("github.com/tendermint/tendermint/types/time.Now", clock)
 	// a tiny file system: path -> content; paths below /nonexistent/ fail
 	files := func(c *pathCtx) map[string][]value {
 		if c.scratch["files"] == nil {
